@@ -129,9 +129,12 @@ package jsonpatch
 // ---- lazy parsing of nodes ----
 
 //@ func newLazyNode
+//@   requires raw: raw != nil ==> allocated(*raw)
+//@   modifies nothing
 //@   ensures[C01,C09] fresh: result != nil && fresh(result) && result.raw == raw && result.doc == nil && result.ary == nil && result.which == eRaw
 
 //@ func newRawMessage
+//@   modifies nothing
 //@   ensures[C01,C09] fresh: result != nil && fresh(result) && fresh(*result) && len(*result) == len(buf)
 //@   ensures[C01,C09] same-bytes: bytes(*result) == bytes(buf)
 
@@ -235,6 +238,7 @@ package jsonpatch
 
 //@ func (Operation).value
 //@   requires op: opOK(o)
+//@   modifies nothing
 //@   ensures[C01] absent: !("value" in o) ==> result == nil
 //@   ensures[C01,C09] present: "value" in o ==> result != nil && fresh(result) && result.which == eRaw && result.doc == nil && result.ary == nil && result.raw != nil && wf(*result.raw) && nows(*result.raw) && allocated(result.raw) && allocated(*result.raw)
 //@   ensures[C01] null: "value" in o && o["value"] == nil ==> kind(val(*result.raw)) == KNull && fresh(result.raw)
